@@ -48,6 +48,12 @@ def run(ctx, rep):
     rep.rule("J1", "shared with C18: the doc field is filled by a byte-indexed backward scan; every str index in it is provably a byte offset (a layout with non-ASCII text in a comment must not cut the slice wrongly or panic)")
     import c18
     c18.dimension_rule(ctx, rep, "C02")
+    # the tree the grammar actions build is the tree the caller gets: stored as returned by the parser, handed to validation as stored
+    import c12 as _c12
+    rep.rule("H3", "inherits C12 H3 / H7 (re-evaluated here): add_content stores exactly what the generated parser returned (the tree of a successful parse is kept "
+                   "whatever diagnostics the actions pushed), and validate passes every stored result through validation::validate")
+    _c12.add_content_rule(ctx, rep, "C02", "H3")
+    _c12.inherit_h7(ctx, rep, "C02")
     rep.assumptions += ["TB-2 the generated parser calls the actions as the grammar says and the runtime lexer is longest-match with the match-block priority", "TB-1 rustc MIR", "TB-4 tabulator",
                         "lalrpop's canned actions for `*`, `+`, `?`, `( )` keep order (TB-2)"]
     rep.not_decided.append("that the generated LR tables implement the grammar (TB-2; gramfacts cross-checks tables against the front-end, outside the registered checks)")
